@@ -19,7 +19,8 @@ def inlineSinglePairs : Rule → Option (Bool × List (Glyph × Glyph))
 /-- rule shapes for which the inline replacement is modelled: single with one marked glyph, multiple
     with one marked glyph (not a class), no inline ligature, no explicit lookup references -/
 def inlineShapeOk : Rule → Prop
-  | .chain _ input _ (.single _) => ∃ t, input = [(t, [])]
+  | .chain _ input _ (.single by_) => ∃ t, input = [(t, [])] ∧
+      ∀ g ∈ t.glyphs, ∃ b, (g, b) ∈ singlePairs (normSingle t by_).1 (normSingle t by_).2
   | .chain _ input _ (.multi _) => ∃ a, input = [(.g a, [])]
   | .chain _ _ _ (.lig _) => False
   | .chain _ input _ .none => input ≠ [] ∧ ∀ x ∈ input, x.2 = []
@@ -116,5 +117,168 @@ theorem anonAddMultiple_preserves (an : List Anon) (t : Glyph) (rs : List Glyph)
         exact absurd (List.getElem?_eq_some_iff.mp hm).1 (by omega)
     · simp [ht, hl]
   · exact ⟨m, h2 hj, hl⟩
+
+/-! ### through the remaining rules -/
+
+theorem anonStep_single (fx : Fixes) (an : List Anon) (b l : List GC) (t by_ : GC) :
+    anonStep fx an (.chain b [(t, [])] l (.single by_))
+      = (anonAddSingle fx an (normSingle t by_).1 (normSingle t by_).2).1 := by
+  simp [anonStep, anonInline]
+
+theorem anonStep_multi (fx : Fixes) (an : List Anon) (b l : List GC) (a : Glyph) (rs : List Glyph) :
+    anonStep fx an (.chain b [(.g a, [])] l (.multi rs)) = (anonAddMultiple an a rs).1 := by
+  simp [anonStep, anonInline, GC.glyphs]
+
+theorem singleHolds_through (fx : Fixes) (rs : List Rule) (hshape : ∀ r ∈ rs, inlineShapeOk r) :
+    ∀ (A : List Anon) (earlier : List (Glyph × Glyph)) (j : Nat) (pairs' : List (Glyph × Glyph)),
+    SingleHolds A j pairs' → (∀ q ∈ pairs', q ∈ earlier) → SingleOk rs earlier →
+    SingleHolds (anonOf fx A rs) j pairs' := by
+  induction rs with
+  | nil => intro A _ j pairs' h _ _; exact h
+  | cons r rs ih =>
+    intro A earlier j pairs' h hsub hok
+    have hs := hshape r (by simp)
+    have hrest : ∀ r' ∈ rs, inlineShapeOk r' := fun r' h' => hshape r' (by simp [h'])
+    simp only [anonOf]
+    cases r with
+    | chain b input l inl =>
+      cases inl with
+      | none =>
+        have : anonStep fx A (.chain b input l .none) = A := by simp [anonStep, anonInline]
+        rw [this]
+        have hok' : SingleOk rs earlier := by
+          simp only [SingleOk] at hok
+          have : inlineSinglePairs (.chain b input l .none) = none := by
+            cases input with
+            | nil => rfl
+            | cons x xs => obtain ⟨t, _⟩ := x; rfl
+          rw [this] at hok; exact hok
+        exact ih hrest A earlier j pairs' h hsub hok'
+      | single by_ =>
+        obtain ⟨t, rfl, _⟩ := hs
+        rw [anonStep_single]
+        simp only [SingleOk, inlineSinglePairs] at hok
+        obtain ⟨hf, hc2g, hok'⟩ := hok
+        apply ih hrest _ (earlier ++ singlePairs (normSingle t by_).1 (normSingle t by_).2) j pairs' _
+          (fun q hq => List.mem_append_left _ (hsub q hq)) hok'
+        apply anonAddSingle_preserves fx A _ _ j pairs' hf h
+        intro p hp q hq hpq
+        by_cases hc : ((normSingle t by_).1.isClass && !(normSingle t by_).2.isClass) = true
+        · exact Or.inr (hc2g hc p hp q (hsub q hq) hpq)
+        · exact Or.inl (checked_complete fx _ _ (by simpa using hc) p hp)
+      | lig r => exact absurd hs (by simp [inlineShapeOk])
+      | multi rs' =>
+        obtain ⟨a, rfl⟩ := hs
+        rw [anonStep_multi, anonAddMultiple_eq']
+        have hok' : SingleOk rs earlier := by
+          simp only [SingleOk, inlineSinglePairs] at hok; exact hok
+        apply ih hrest _ earlier j pairs' _ hsub hok'
+        exact addAnon_keeps_single _ _ _ A (by intro m; rfl) j pairs' h
+    | ignore alts =>
+      have : anonStep fx A (.ignore alts) = A := rfl
+      rw [this]
+      have hok' : SingleOk rs earlier := by simp only [SingleOk, inlineSinglePairs] at hok; exact hok
+      exact ih hrest A earlier j pairs' h hsub hok'
+    | _ => exact absurd hs (by simp [inlineShapeOk])
+
+theorem multiHolds_through (fx : Fixes) (rs : List Rule) (hshape : ∀ r ∈ rs, inlineShapeOk r) :
+    ∀ (A : List Anon) (j : Nat) (a : Glyph) (rs' : List Glyph),
+    MultiHolds A j a rs' → MultiHolds (anonOf fx A rs) j a rs' := by
+  induction rs with
+  | nil => intro A j a rs' h; exact h
+  | cons r rs ih =>
+    intro A j a rs' h
+    have hs := hshape r (by simp)
+    have hrest : ∀ r' ∈ rs, inlineShapeOk r' := fun r' h' => hshape r' (by simp [h'])
+    simp only [anonOf]
+    cases r with
+    | chain b input l inl =>
+      cases inl with
+      | none =>
+        have : anonStep fx A (.chain b input l .none) = A := by simp [anonStep, anonInline]
+        rw [this]; exact ih hrest A j a rs' h
+      | single by_ =>
+        obtain ⟨t, rfl, _⟩ := hs
+        rw [anonStep_single, anonAddSingle_eq']
+        exact ih hrest _ j a rs' (addAnon_keeps_multi _ _ _ A (by intro m; rfl) j a rs' h)
+      | lig r => exact absurd hs (by simp [inlineShapeOk])
+      | multi rs2 =>
+        obtain ⟨a2, rfl⟩ := hs
+        rw [anonStep_multi]
+        exact ih hrest _ j a rs' (anonAddMultiple_preserves A a2 rs2 j a rs' h)
+    | ignore alts => exact ih hrest A j a rs' h
+    | _ => exact absurd hs (by simp [inlineShapeOk])
+
+/-- an inline rule finds its replacement in anonymous lookup `idx` of the list `A` -/
+def InlineHolds (A : List Anon) (input : List (GC × List String)) (inl : Inline) (idx : Option Nat) : Prop :=
+  match inl, input, idx with
+  | .single by_, (t, _) :: _, some j => SingleHolds A j (singlePairs (normSingle t by_).1 (normSingle t by_).2)
+  | .multi rs, (.g a, _) :: _, some j => MultiHolds A j a rs
+  | .none, _, none => True
+  | _, _, _ => False
+
+/-- every rule of the list, processed from the anonymous lookups `an`, finds its replacement in `A` -/
+def AllHold (fx : Fixes) (A : List Anon) : List Anon → List Rule → Prop
+  | _, [] => True
+  | an, r :: rs =>
+    (match r with
+     | .chain _ input _ inl => InlineHolds A input inl (anonInline fx an input inl).2
+     | _ => True) ∧ AllHold fx A (anonStep fx an r) rs
+
+/-- **All inline rules hold at the end.** -/
+theorem allHold_final (fx : Fixes) (rs : List Rule) (hshape : ∀ r ∈ rs, inlineShapeOk r) :
+    ∀ (an : List Anon) (earlier : List (Glyph × Glyph)), SingleOk rs earlier →
+    AllHold fx (anonOf fx an rs) an rs := by
+  induction rs with
+  | nil => intro _ _ _; trivial
+  | cons r rs ih =>
+    intro an earlier hok
+    have hs := hshape r (by simp)
+    have hrest : ∀ r' ∈ rs, inlineShapeOk r' := fun r' h' => hshape r' (by simp [h'])
+    simp only [AllHold, anonOf]
+    cases r with
+    | chain b input l inl =>
+      cases inl with
+      | none =>
+        have hstep : anonStep fx an (.chain b input l .none) = an := by simp [anonStep, anonInline]
+        have hok' : SingleOk rs earlier := by
+          simp only [SingleOk] at hok
+          have : inlineSinglePairs (.chain b input l .none) = none := by
+            cases input with
+            | nil => rfl
+            | cons x xs => obtain ⟨t, _⟩ := x; rfl
+          rw [this] at hok; exact hok
+        refine ⟨?_, by rw [hstep]; exact ih hrest an earlier hok'⟩
+        simp [InlineHolds, anonInline]
+      | single by_ =>
+        obtain ⟨t, rfl, _⟩ := hs
+        simp only [SingleOk, inlineSinglePairs] at hok
+        obtain ⟨hf, _, hok'⟩ := hok
+        rw [anonStep_single]
+        refine ⟨?_, ih hrest _ _ hok'⟩
+        have hidx : (anonInline fx an [(t, [])] (.single by_)).2
+            = some (anonAddSingle fx an (normSingle t by_).1 (normSingle t by_).2).2 := by
+          simp [anonInline]
+        show InlineHolds _ [(t, [])] (.single by_) (anonInline fx an [(t, [])] (.single by_)).2
+        rw [hidx]
+        simp only [InlineHolds]
+        exact singleHolds_through fx rs hrest _ _ _ _ (anonAddSingle_holds fx an _ _ hf)
+          (fun q hq => List.mem_append_right _ hq) hok'
+      | lig r => exact absurd hs (by simp [inlineShapeOk])
+      | multi rs' =>
+        obtain ⟨a, rfl⟩ := hs
+        have hok' : SingleOk rs earlier := by simp only [SingleOk, inlineSinglePairs] at hok; exact hok
+        rw [anonStep_multi]
+        refine ⟨?_, ih hrest _ earlier hok'⟩
+        have hidx : (anonInline fx an [(.g a, [])] (.multi rs')).2 = some (anonAddMultiple an a rs').2 := by
+          simp [anonInline, GC.glyphs]
+        show InlineHolds _ [(.g a, [])] (.multi rs') (anonInline fx an [(.g a, [])] (.multi rs')).2
+        rw [hidx]
+        simp only [InlineHolds]
+        exact multiHolds_through fx rs hrest _ _ _ _ (anonAddMultiple_holds an a rs')
+    | ignore alts =>
+      have hok' : SingleOk rs earlier := by simp only [SingleOk, inlineSinglePairs] at hok; exact hok
+      exact ⟨trivial, ih hrest an earlier hok'⟩
+    | _ => exact absurd hs (by simp [inlineShapeOk])
 
 end Fontc.FeaCompile
